@@ -10,7 +10,7 @@ LEVEL = dict(
               "multiset modulo encrypt/decrypt, same byte constants, same closures); authentication and state decoding dominate the "
               "first mutation in decrypt_raw/encrypt; the encryption dictionary is added after / removed after the object loop and "
               "skipped by it; object-stream members are merged add-only after decryption; both password kinds are tried; for "
-              "revisions 2-4 the file key must be derived from the user password (owner password unwound first)",
+              "revisions 2-4 the file key must be derived from the user password (owner password unwound first); the method name each CryptFilter writes (CFM) is mapped back to the same filter by get_crypt_filters; every Ok return of authenticate_* is entered on an edge on which the owner or the user authentication was Ok",
     explanation="Decides the structural conditions without which the round trip cannot hold for every object: an exemption or filter "
                 "choice present on one side only, mutation before authentication, a missing/extra Encrypt entry, replacing objects "
                 "while merging object-stream members. Does not decide byte equality after the cycle, ciphertext != plaintext, key "
